@@ -159,3 +159,6 @@ Print Assumptions C08_simpson_exact_cubic_equal_spacing.
 Example C08_simpson_example :
   simpson opsQ [0; 1; 3; 4]%Q [1; 2; 10; 17]%Q == (76 # 3)%Q /\ simpson opsQ [0; 1; 3]%Q [1; 2; 10]%Q == 12%Q.
 Proof. split; vm_compute; reflexivity. Qed.
+(* the translated source, executed *)
+Example C08_source_example : gen_trapz_weights opsQ [0; 1; 3] = [1#2; 3#2; 1].
+Proof. vm_compute. reflexivity. Qed.
